@@ -58,7 +58,7 @@ ReqsAll ==
     SignedLatency |-> {[k |-> "SignedLatency", rid |-> rid, n |-> n, wallet |-> w] : n \in {0, 2, 51}, w \in {"", "0xabc"}}
                       \cup {[k |-> "SignedLatency", rid |-> rid, n |-> 3, wallet |-> ""]},
     Action        |-> {[k |-> "Action", rid |-> rid, eid |-> e, name |-> n, ats |-> a, data |-> d, has |-> TRUE, ts |-> ts]
-                         : e \in 0..MaxEid, n \in ActNames \cup {""}, a \in AtsVals \cup {-1}, d \in {MinOf(DataVals)}}
+                         : e \in 0..MaxEid, n \in ActNames \cup {""}, a \in AtsVals \cup {-1}, d \in DataVals}
                       \cup {[k |-> "Action", rid |-> rid, eid |-> 1, name |-> "x", ats |-> 1, data |-> 0, has |-> FALSE, ts |-> ts]},
     AssetAdd      |-> {[k |-> "AssetAdd", rid |-> rid, eid |-> e, asset |-> a, ts |-> ts] : e \in 0..MaxEid, a \in AssetNames \cup {""}},
     Leave         |-> {[k |-> "Leave", rid |-> rid]},
